@@ -15,6 +15,7 @@ from exabgp.bgp.message.update.nlri.evpn.nlri import EVPN
 from exabgp.bgp.message.update.nlri.qualifier import ESI, EthernetTag, Labels, RouteDistinguisher
 from exabgp.bgp.message.update.nlri.qualifier import MAC as MACQUAL
 from exabgp.bgp.message.update.nlri.qualifier.path import PathInfo
+from exabgp.protocol.family import Family
 from exabgp.protocol.ip import IP
 from exabgp.util.types import Buffer
 
@@ -146,11 +147,13 @@ class MAC(EVPN):
         return Labels.unpack_labels(self._packed[label_start : label_start + 3])
 
     def index(self) -> bytes:
-        # Note: Per RFC 7432 Section 7.2, the route key for Type 2 should only include
-        # etag, mac, and ip (ESI and labels are attributes, not key). However, this
-        # implementation uses full packed bytes for index. The __eq__ method correctly
-        # excludes ESI and label for semantic equality comparisons.
-        return EVPN.index(self)
+        # RFC 7432 7.2: the route key of a type 2 route is the RD, the Ethernet tag, the MAC and
+        # the IP; the ESI and the labels are what the route carries. __eq__ and __hash__ have
+        # always said so, the index did not, so two equal routes had two places in the RIB
+        # and a withdraw with another label left the announce behind.
+        key = bytes([self.CODE]) + bytes(self.rd.pack_rd()) + bytes(self.etag.pack_etag()) + bytes(self.mac.pack_mac())
+        key += bytes(self.ip.pack_ip()) if self.ip else b''
+        return bytes(Family.index(self)) + key
 
     def __eq__(self, other: object) -> bool:
         return (
